@@ -391,9 +391,8 @@ class IndentationFitter(object):
         # (work on a copy: `_fit` is called once per pass and the stored
         # initial parameters must stay in measured units)
         params_initial = copy.deepcopy(self.fp["params_initial"])
-        # modify contact point with gcf_k
-        cpi = params_initial["contact_point"].value
-        params_initial["contact_point"].set(value=cpi * self.fp["gcf_k"])
+        # modify contact point (value and bounds) with gcf_k
+        scale_parameter(params_initial["contact_point"], self.fp["gcf_k"])
         weight_cp = self.fp["weight_cp"]
 
         # boolean array indexing the segment
@@ -434,8 +433,8 @@ class IndentationFitter(object):
             # residuals
             fit_res[segid] = md.residual(fit.params, xseg, yseg, weight_cp)
             # inverse contact point correction with gcf_k
-            cpf = fit.params["contact_point"].value
-            fit.params["contact_point"].set(value=cpf / self.fp["gcf_k"])
+            scale_parameter(fit.params["contact_point"], self.fp["gcf_k"],
+                            inverse=True)
             # add fit results to fp dictionary
             self.fp.update({"params_fitted": fit.params,
                             "chi_sqr": fit.chisqr,
@@ -548,6 +547,18 @@ class IndentationFitter(object):
         # join and hash
         myhash = hashlib.md5(obj2bytes(hashlist)).hexdigest()
         return myhash
+
+
+def scale_parameter(param, factor, inverse=False):
+    """Multiply (or divide) value and bounds of a parameter by a factor"""
+    vals = [param.value, param.min, param.max]
+    if inverse:
+        vals = [v / factor for v in vals]
+    else:
+        vals = [v * factor for v in vals]
+    # open the bounds first (lmfit clips a value to the current bounds)
+    param.set(min=-np.inf, max=np.inf)
+    param.set(value=vals[0], min=vals[1], max=vals[2])
 
 
 def guess_initial_parameters(idnt=None,
